@@ -992,10 +992,3 @@ Proof.
     try (apply H24s; cbn in Hv; exact Hv);
     try (destruct Hv as [Hm Hr]; apply Hint; [lia | assumption | cbn in Hr |- *; lia]).
 Qed.
-
-Lemma arange_len_unsigned_spec start stop p q : p <> 0 -> 0 <= start <= stop -> stop < 2 ^ 64 ->
-  arange_len_unsigned start stop p q = Val (np_arange_len start stop p q).
-Proof.
-  intros Hp Hs Hb. unfold arange_len_unsigned. rewrite wrap_small by lia. rewrite arange_len_spec by assumption.
-  unfold np_arange_len. now rewrite Z.sub_0_r.
-Qed.
